@@ -559,8 +559,14 @@ func (c *Compiler[_, _]) popControlFlow(endOffset int) {
 	c.controlFlows[lastIndex] = controlFlow{}
 	c.controlFlows = c.controlFlows[:lastIndex]
 
-	for _, breakOffset := range l.breaks {
-		c.patchJump(breakOffset, endOffset)
+	// popControlFlow is deferred by the loop and switch statement visitors.
+	// If the end offset is still unset, compilation of the statement did not complete,
+	// i.e. a panic (e.g. a metering error) is propagating: there is nothing to patch,
+	// and patching would replace the original panic with an internal error.
+	if endOffset != 0 {
+		for _, breakOffset := range l.breaks {
+			c.patchJump(breakOffset, endOffset)
+		}
 	}
 
 	var previousControlFlow *controlFlow
